@@ -283,7 +283,7 @@ Ltac priv I HT Hpc :=
   | unfold local_ok, lok; cbn [pc b t a na i arg rv mk with_pc] ].
 
 Ltac ls_new K0 :=
-  unfold Ls, Lc; cbn [thr bot top cur arrs narr]; rewrite ?upd_same, ?next_op_lkind, ?K0;
+  unfold Ls, Lc; cbn [thr bot top cur arrs narr set_thr]; rewrite ?upd_same, ?next_op_lkind, ?K0;
   cbn [pc mk with_pc lkind Ls_of Lc_of].
 
 Theorem step_inv s u : Inv s -> Inv (fst (step s u)).
@@ -302,22 +302,21 @@ Proof.
     destruct LT as (L1 & L2 & L3).
     rewrite Z.geb_leb. destruct (Z.leb_spec (asize (arrs s (cur s)) - 1) (b T - t T)) as [G|G]; cbn [fst].
     + (* grow *)
-      set (n := S (narr s)).
+      remember (S (narr s)) as n eqn:Hn.
       set (x := mk (if (t T <? b T)%Z then UGRd else UGSt) (b T) (t T) (cur s) n (t T) (arg T) (rv T) (prog T) (opi T)).
       assert (Kx : lkind (pc x) = 0%nat) by (unfold x; destruct (t T <? b T)%Z; reflexivity).
       assert (En : forall k, (k <= cur s)%nat -> upd (arrs s) n (fresh (S (lg (arrs s (cur s))))) k = arrs s k)
-        by (intros k Hk; apply upd_other; unfold n; lia).
+        by (intros k Hk; apply upd_other; lia).
       eapply (inv_update s _ 0%nat x I); [reflexivity | hx0 | | | | | ].
       * unfold Ls; cbn [thr bot top]; rewrite upd_same, Kx. unfold Ls in Itop; rewrite K0 in Itop. exact Itop.
       * unfold Lc; cbn [thr bot top cur arrs]; rewrite upd_same, Kx, En by lia.
         unfold Lc in Icap; rewrite K0 in Icap. exact Icap.
       * cbn [cur narr]. lia.
-      * unfold local_ok, lok, grow_ok, x. cbn [top bot cur arrs narr].
-        rewrite En by lia. 
+      * unfold local_ok, lok, x. cbn [top bot cur arrs narr].
         assert (G1 : grow_ok (top s) (bot s) (cur s) (upd (arrs s) n (fresh (S (lg (arrs s (cur s)))))) n
                      (mk UGRd (b T) (t T) (cur s) n (t T) (arg T) (rv T) (prog T) (opi T))).
-        { unfold grow_ok; cbn [b t a na i mk]. rewrite En by lia. rewrite upd_same. cbn [lg fresh].
-          repeat split; auto; try lia. intros j Hj. lia. }
+        { unfold grow_ok; cbn [b t a na i mk]. rewrite (En (cur s)) by lia. rewrite upd_same. cbn [lg fresh].
+          repeat split; auto; try lia; try (intros; lia). }
         destruct (Z.ltb_spec (t T) (b T)); cbn [pc mk]; (split; [exact G1 | cbn [b i mk]; lia]).
       * apply others_thief; auto. left. unfold Ls; cbn [thr bot]; rewrite upd_same, Kx, K0. lia.
     + priv I HT Hpc. repeat split; auto; lia.
@@ -341,7 +340,7 @@ Proof.
       pose proof (asize_pos (arrs s (cur s))) as P.
       assert (GG : grow_ok (top s) (bot s) (cur s) (upd (arrs s) (na T) (put N (i T) (rv T))) (narr s)
                    (mk UGRd (b T) (t T) (a T) (na T) (i T + 1) (arg T) (rv T) (prog T) (opi T))).
-      { unfold grow_ok; cbn [b t a na i mk]. rewrite En by lia. rewrite upd_same.
+      { unfold grow_ok; cbn [b t a na i mk]. rewrite (En (cur s)) by lia. rewrite upd_same.
         repeat split; auto; try lia. intros j Hj.
         destruct (Z.eq_dec j (i T)) as [->|Hne].
         - rewrite get_put_same. exact L2.
@@ -362,7 +361,7 @@ Proof.
     * intros v Hv Lv. unfold local_ok in *. cbn [top bot cur arrs narr].
       assert (ELs : Ls {| top := top s; bot := bot s; cur := na T; arrs := arrs s; narr := narr s;
                           thr := upd (thr s) 0%nat (mk UPut (b T) (t T) (na T) (na T) (i T) (arg T) (rv T) (prog T) (opi T));
-                          nthr := nthr s |} = Ls s) by (ls_new K0; unfold Ls; rewrite K0; reflexivity).
+                          nthr := nthr s |} = Ls s) by (ls_new K0; reflexivity).
       rewrite ELs. assert (LsB : Ls s = bot s) by (unfold Ls; rewrite K0; reflexivity).
       pose proof (proj1 (i_thief s I v Hv)) as Hp. unfold lok in *.
       destruct (pc (thr s v)); cbn in Hp; try contradiction; auto.
@@ -385,7 +384,7 @@ Proof.
     * intros v Hv Lv. unfold local_ok in *. cbn [top bot cur arrs narr].
       assert (ELs : Ls {| top := top s; bot := bot s; cur := cur s; arrs := upd (arrs s) (cur s) (put A (b T) (arg T));
                           narr := narr s; thr := upd (thr s) 0%nat (with_pc T USt); nthr := nthr s |} = Ls s)
-        by (ls_new K0; unfold Ls; rewrite K0; reflexivity).
+        by (ls_new K0; reflexivity).
       rewrite ELs. assert (LsB : Ls s = bot s) by (unfold Ls; rewrite K0; reflexivity).
       pose proof (proj1 (i_thief s I v Hv)) as Hp. unfold lok in *.
       assert (GP : forall j, top s <= j < bot s -> get (put A (b T) (arg T)) j = get A j)
@@ -409,5 +408,124 @@ Proof.
     * ls_new K0. lia.
     * cbn [cur narr]. lia.
     * apply next_op_lok.
-    * apply others_thief; auto. left. ls_new K0. unfold Ls; rewrite K0; cbn. lia.
-Admitted.
+    * apply others_thief; auto. left. ls_new K0. lia.
+  - (* OBot *) owner0 I HT Hpc u. priv I HT Hpc. lia.
+  - (* OArr *) owner0 I HT Hpc u. priv I HT Hpc. split; [exact LT|reflexivity].
+  - (* OSt *) owner0 I HT Hpc u.
+    assert (K0 : lkind (pc (thr s 0)) = 0%nat) by (rewrite <- HT, Hpc; reflexivity).
+    destruct LT as (L1 & L2).
+    unfold Ls in Itop; rewrite K0 in Itop. unfold Lc in Icap; rewrite K0 in Icap. cbn in Itop, Icap.
+    eapply (inv_update s _ 0%nat _ I); [reflexivity | hx0 | | | | | ].
+    * ls_new K0. lia.
+    * ls_new K0. lia.
+    * cbn [cur narr]. lia.
+    * unfold local_ok, lok. cbn [top bot cur arrs narr pc b t a mk with_pc]. auto.
+    * apply others_thief; auto. left. ls_new K0. lia.
+  - (* OTop *) owner0 I HT Hpc u.
+    assert (K0 : lkind (pc (thr s 0)) = 1%nat) by (rewrite <- HT, Hpc; reflexivity).
+    destruct LT as (L1 & L2).
+    unfold Ls in Itop; rewrite K0 in Itop. unfold Lc in Icap; rewrite K0 in Icap. cbn in Itop, Icap.
+    set (p := if (b T - top s <? 0)%Z then OEmp else if (0 <? b T - top s)%Z then OGetN else OGet1).
+    eapply (inv_update s _ 0%nat (mk p (b T) (top s) (a T) (na T) (i T) (arg T) (rv T) (prog T) (opi T)) I);
+      [reflexivity | hx0 | | | | | ].
+    * unfold Ls; cbn [thr bot top set_thr]; rewrite upd_same; cbn [pc mk]. unfold p.
+      destruct (Z.ltb_spec (b T - top s) 0); [cbn; lia|]. destruct (Z.ltb_spec 0 (b T - top s)); cbn; lia.
+    * unfold Lc; cbn [thr bot top cur arrs set_thr]; rewrite upd_same; cbn [pc mk]. unfold p.
+      destruct (Z.ltb_spec (b T - top s) 0); [cbn; lia|]. destruct (Z.ltb_spec 0 (b T - top s)); cbn; lia.
+    * cbn [cur narr set_thr]. lia.
+    * unfold local_ok, lok, Ls. cbn [top bot cur arrs narr pc b t a mk thr set_thr]. rewrite upd_same; cbn [pc mk]. unfold p.
+      destruct (Z.ltb_spec (b T - top s) 0); [cbn; repeat split; auto; lia|].
+      destruct (Z.ltb_spec 0 (b T - top s)); cbn; repeat split; auto; lia.
+    * apply others_thief; auto. unfold Ls; cbn [thr bot top set_thr]; rewrite upd_same, K0; cbn [pc mk]. unfold p.
+      destruct (Z.ltb_spec (b T - top s) 0); [cbn; lia|]. destruct (Z.ltb_spec 0 (b T - top s)); cbn; lia.
+  - (* OEmp *) owner0 I HT Hpc u.
+    assert (K0 : lkind (pc (thr s 0)) = 1%nat) by (rewrite <- HT, Hpc; reflexivity).
+    destruct LT as (L1 & L2 & L3 & L4).
+    unfold Ls in Itop; rewrite K0 in Itop. unfold Lc in Icap; rewrite K0 in Icap. cbn in Itop, Icap.
+    eapply (inv_update s _ 0%nat _ I); [reflexivity | hx0 | | | | | ].
+    * ls_new K0. lia.
+    * ls_new K0. lia.
+    * cbn [cur narr]. lia.
+    * apply next_op_lok.
+    * apply others_thief; auto. left. ls_new K0. lia.
+  - (* OGetN *) owner0 I HT Hpc u.
+    assert (K0 : lkind (pc (thr s 0)) = 2%nat) by (rewrite <- HT, Hpc; reflexivity).
+    destruct LT as (L1 & L2 & L3).
+    unfold Ls in Itop; rewrite K0 in Itop. unfold Lc in Icap; rewrite K0 in Icap. cbn in Itop, Icap.
+    eapply (inv_update s _ 0%nat _ I); [reflexivity | hx0 | | | | | ].
+    * ls_new K0. lia.
+    * ls_new K0. lia.
+    * cbn [cur narr set_thr]. lia.
+    * apply next_op_lok.
+    * apply others_thief; auto. left. ls_new K0. lia.
+  - (* OGet1 *) owner0 I HT Hpc u. destruct LT as (L1 & L2 & L3 & L4). priv I HT Hpc.
+    repeat split; auto. rewrite L2. reflexivity.
+  - (* OCas *) owner0 I HT Hpc u.
+    assert (K0 : lkind (pc (thr s 0)) = 1%nat) by (rewrite <- HT, Hpc; reflexivity).
+    destruct LT as (L1 & L2 & L3 & L4 & L5).
+    unfold Ls in Itop; rewrite K0 in Itop. unfold Lc in Icap; rewrite K0 in Icap. cbn in Itop, Icap.
+    destruct (Z.eqb_spec (top s) (t T)) as [E|E]; cbn [fst].
+    + eapply (inv_update s _ 0%nat _ I); [reflexivity | hx0 | | | | | ].
+      * ls_new K0. lia.
+      * ls_new K0. lia.
+      * cbn [cur narr]. lia.
+      * unfold local_ok, lok. ls_new K0. cbn [top bot cur arrs narr pc b t a mk with_pc]. repeat split; auto; lia.
+      * intros v Hv Lv. unfold local_ok in *. cbn [top bot cur arrs narr].
+        assert (ELs : Ls {| top := t T + 1; bot := bot s; cur := cur s; arrs := arrs s; narr := narr s;
+                            thr := upd (thr s) 0%nat (with_pc T OFixW); nthr := nthr s |} = Ls s)
+          by (ls_new K0; reflexivity).
+        rewrite ELs, <- E. apply lok_top_inc; auto. unfold Ls; rewrite K0; cbn. lia.
+    + priv I HT Hpc. unfold Ls; rewrite K0; cbn. repeat split; auto; lia.
+  - (* OFixW *) owner0 I HT Hpc u.
+    assert (K0 : lkind (pc (thr s 0)) = 1%nat) by (rewrite <- HT, Hpc; reflexivity).
+    destruct LT as (L1 & L2 & L3 & L4).
+    unfold Ls in Itop; rewrite K0 in Itop. unfold Lc in Icap; rewrite K0 in Icap. cbn in Itop, Icap.
+    eapply (inv_update s _ 0%nat _ I); [reflexivity | hx0 | | | | | ].
+    * ls_new K0. lia.
+    * ls_new K0. lia.
+    * cbn [cur narr]. lia.
+    * apply next_op_lok.
+    * apply others_thief; auto. left. ls_new K0. lia.
+  - (* OFixL *) owner0 I HT Hpc u.
+    assert (K0 : lkind (pc (thr s 0)) = 1%nat) by (rewrite <- HT, Hpc; reflexivity).
+    destruct LT as (L1 & L2 & L3 & L4).
+    unfold Ls in Itop; rewrite K0 in Itop. unfold Lc in Icap; rewrite K0 in Icap. cbn in Itop, Icap.
+    eapply (inv_update s _ 0%nat _ I); [reflexivity | hx0 | | | | | ].
+    * ls_new K0. lia.
+    * ls_new K0. lia.
+    * cbn [cur narr]. lia.
+    * apply next_op_lok.
+    * apply others_thief; auto. left. ls_new K0. lia.
+  - (* TTop *) priv I HT Hpc. lia.
+  - (* TBot *) priv I HT Hpc. split; [exact LT|]. intros E1 E2. pose proof (bt_le_Ls (lkind (pc (thr s 0))) (bot s)). unfold Ls. lia.
+  - (* TArr *) destruct LT as (L1 & L2).
+    destruct (Z.leb_spec (b T - t T) 0); cbn [fst].
+    + apply local_step; auto.
+      * rewrite next_op_lkind, <- HT, Hpc. reflexivity.
+      * intros Hu. rewrite HT. apply next_op_hx; auto.
+      * apply next_op_lok.
+    + priv I HT Hpc. repeat split; auto; try lia; try (apply L2; auto; lia).
+  - (* TGet *) destruct LT as (L1 & L2 & L3 & L4). priv I HT Hpc.
+    repeat split; auto; try (apply L4; auto). destruct (L4 H) as [_ D]. exact D.
+  - (* TCas *) destruct LT as (L1 & L2 & L3 & L4).
+    destruct (Z.eqb_spec (top s) (t T)) as [E|E]; cbn [fst].
+    + destruct (L4 E) as (D1 & D2 & D3).
+      assert (K : lkind (pc (upd (thr s) u (next_op T) 0%nat)) = lkind (pc (thr s 0%nat)))
+        by (apply pc0_upd; rewrite next_op_lkind, <- HT, Hpc; reflexivity).
+      eapply (inv_update s _ u _ I); [reflexivity | | | | | | ].
+      * intros Hu. rewrite HT. apply next_op_hx; auto.
+      * unfold Ls; cbn [thr bot top]. rewrite K. fold (Ls s). lia.
+      * unfold Lc; cbn [thr bot top cur arrs]. rewrite K. fold (Lc s). lia.
+      * cbn [cur narr]. lia.
+      * apply next_op_lok.
+      * intros v Hv Lv. unfold local_ok in *. cbn [top bot cur arrs narr].
+        assert (ELs : Ls {| top := t T + 1; bot := bot s; cur := cur s; arrs := arrs s; narr := narr s;
+                            thr := upd (thr s) u (next_op T); nthr := nthr s |} = Ls s)
+          by (unfold Ls; cbn [thr bot]; rewrite K; reflexivity).
+        rewrite ELs, <- E. apply lok_top_inc; auto. lia.
+    + apply local_step; auto.
+      * rewrite next_op_lkind, <- HT, Hpc. reflexivity.
+      * intros Hu. rewrite HT. apply next_op_hx; auto.
+      * apply next_op_lok.
+  - (* Fin *) exact I.
+Qed.
